@@ -137,7 +137,7 @@ class SRECline(object):
             cksum = sum(s) & 0xFF
             self.cksum = cksum ^ 0xFF
             if self.cksum != int(line[-2:], 16):
-                logger.warn("bad checksum, needed %02x"%(cksum^0xff))
+                raise SRECError("bad checksum, needed %02x"%(cksum^0xff))
         except (AssertionError,ValueError):
             raise SRECError(line)
 
